@@ -46,6 +46,7 @@ def parseOp : List String → Option Op
   | ["stop"] => some .stop
   | ["newloop"] => some .newLoop
   | ["closeloop"] => some .closeLoop
+  | ["inval"] => some .inval
   | _ => none
 
 structure DSt where
@@ -74,7 +75,7 @@ def stepLine (d : DSt) (toks : List String) : DSt × String :=
     match strs.mapM decStr with
     | some ws => (d, encStr (cat ws))
     | none => (d, "bad-op")
-  | "cinit" :: _ | "center" :: _ | "cstep" :: _ | "cstop" :: _ | "cstart" :: _ =>
+  | "cinit" :: _ | "center" :: _ | "cstep" :: _ | "cstop" :: _ | "cstart" :: _ | "cinval" :: _ =>
     match C20Chain.stepLine d.c toks with
     | some (c', r) => ({ d with c := c' }, r)
     | none => (d, "bad-op")
